@@ -1,8 +1,8 @@
 package harness
 
 import (
-	"sort"
 	"fmt"
+	"sort"
 	"strings"
 
 	"verif/pgwire"
